@@ -83,6 +83,14 @@ prop('C04', True, "The lock operations are not modelled by hand: on every run th
      "failed_sticky for operations overlapping the fail/release instants is covered by correspondence only; independence of names is by construction of the model (one name) and checked dynamically.",
      "Lean 4 proof (generic invariant over extracted, kernel-type-checked lock programs) + exhaustive-interleaving correspondence on the real classes")
 
+prop('C19', True, "Lean model of the helper loop and of is_failed() on an integer clock. Theorems: live_never_failed (for every run length and every sequence of round overshoots <= Delta, if sigma + rounds*(period+Delta) < expiry "
+     "the lock's age stays below the expiry at every instant), start_inv, dead_eventually_failed (no refresh after the wake-up that finds the parent gone; failed from death+expiry on), terminates_parent_gone, "
+     "terminates_lock_gone. Bridges re-extracted on every run by driving the real main()/is_failed()/lock on a simulated clock: constants_safe (period 5, rounds 60, expiry 1800 => Delta = 24 s is safe), loop_matches "
+     "(call order of 125 real rounds = model), exits_match, helper_started_plainly (Popen argv/kwargs, release/fail kill the helper). Correspondence: real loop on the simulated clock for seconds..10 days, death at every "
+     "offset, lock removal; plus a real helper process started by the real lock with a relative jug directory.",
+     "Timing assumption (stated in the theorem): a round overshoots its sleep by less than Delta; a refresh racing the helper's own SIGKILL is not modelled; getppid()/kill() semantics trusted.",
+     "Lean 4 proof (invariant over rounds, linear arithmetic) + kernel-checked extracted constants/traces + simulated-clock correspondence + real helper process")
+
 def main():
     checks, na = [], []
     ids = ['C%02d' % i for i in range(1, 21)]
